@@ -50,6 +50,7 @@ Line ==
         \/ e.a = "deref" /\ Deref(e.x) /\ obs' = (IF e.o = 0 THEN <<"undef">> ELSE <<"obj", e.o>>)
         \/ e.a = "unreg" /\ Unregister(e.x) /\ obs' = <<"removed", e.o>>
         \/ e.a = "jobs" /\ Len(e.o) = Cardinality(SeqToSet(e.o)) /\ SeqToSet(e.o) \subseteq Reg /\ Jobs(SeqToSet(e.o))
+        \/ e.a = "clear" /\ ClearKept
         \/ e.a = "gc" /\ UNCHANGED vars          \* the forced collection is the Silent step before this line
         \/ e.a = "reset" /\ Reset
 
